@@ -11,7 +11,9 @@
   * `bvpProblems`, `ivpProblems`  the sequence of `(l, m)` problems in call order,
   * `potentialAt`    `Σ_lm value_lm(r) Y_lm` at one point,
   * `atomSlices`, `molSum`        the molecular fan-out (`w_A ρ` per atom, sum of the atomic answers),
-  * `coreDensity`, `robustResidualAll`, `robustPotential`  the robust split.
+  * `coreDensity`, `robustResidualAll`, `robustPotential`  the robust split,
+  * `laplacianAt`, `lapDegreesK`, `lapAtomSlices`, `lapTermSlices`, `lapSum`  the list plumbing of
+    `interpolate_laplacian` (three contractions with the harmonics, clamp, molecular fan-out).
   Tied to the implementation by correspondence (`harness/props/c16.py` intercepts the calls of
   `solve_ode_bvp` / `solve_ode_ivp`).  No Mathlib import (linked into the driver).
 -/
@@ -93,5 +95,63 @@ def robustResidualAll (rho : K) (cores : List K) : K := cores.foldl robustResidu
 `vBond` and the numerical potential `vRes` of the residual. -/
 def robustPotential (pots : List K) (vBond vRes : K) : K :=
   robustTotal (pots.foldl robustCoreAccum ((0 : Nat) : K)) vBond vRes
+
+/-! ### `interpolate_laplacian` -/
+
+/-- `np.einsum("ln,l,ln -> n", r_values_f, degrees, r_sph_harm)` at one point. -/
+def dot3 : List K → List K → List K → K
+  | a :: as, d :: ds, b :: bs => a * d * b + dot3 as ds bs
+  | _, _, _ => ((0 : Nat) : K)
+
+/-- The spline values of the derivative order a component asks for: `spline(r)`, `spline(r, 1)`,
+`spline(r, 2)` are the inputs `rho`, `rho1`, `rho2` (one entry per `(l, m)`); no other order is
+available (`[]`). -/
+def lapPick (order : Nat) (rho rho1 rho2 : List K) : List K :=
+  match order with
+  | 0 => rho
+  | 1 => rho1
+  | 2 => rho2
+  | _ => []
+
+/-- One of the three contractions of `interpolate_laplacian_atom_grid`. -/
+def lapContract (weighted : Bool) (vals degs ylm : List K) : K :=
+  if weighted then dot3 vals degs ylm else dot vals ylm
+
+/-- The generated `degrees` array as numbers (NumPy converts the integer array in the contraction). -/
+def lapDegreesK (lMax : Nat) : List K := (lapDegrees lMax).map fun d => ((d.toNat : Nat) : K)
+
+/-- `interpolate_laplacian_atom_grid` at one point at distance `r` from the atom: `rho`, `rho1`, `rho2`
+are the values of the radial component splines and of their first and second derivatives **at the
+clamped radius** `lapClamp r cutoff`, `degs` the `degrees` array, `ylm` the harmonics at the
+angles of the point. Assembled from the generated pieces only. -/
+def laplacianAt (rho rho1 rho2 degs ylm : List K) (r cutoff : K) : K :=
+  let rc := lapClamp r cutoff
+  lapReturn
+    (lapFirst (lapContract lapFirstWeighted (lapPick lapFirstOrder rho rho1 rho2) degs ylm) rc)
+    (lapSecond (lapContract lapSecondWeighted (lapPick lapSecondOrder rho rho1 rho2) degs ylm) rc)
+    (lapThird (lapContract lapThirdWeighted (lapPick lapThirdOrder rho rho1 rho2) degs ylm) rc)
+
+/-- `func_vals_atom[start_index:final_index]` of every loop iteration of `interpolate_laplacian`. -/
+def lapAtomSlices (f w : List K) (indices : List Nat) : Option (List (List K)) :=
+  let fw := List.zipWith lapWeighted f w
+  (List.range (indices.length - 1)).mapM fun i => do
+    let a ← indices[lapSliceStart i]?
+    let b ← indices[lapSliceEnd i]?
+    pure ((fw.drop a).take (b - a))
+
+/-- What the term of atom `i` works with when the returned callable is evaluated: (index of the
+atomic grid, values handed to `radial_component_splines`), following Python's closure rules as
+recorded by the translator (`lapGridOwner`, `lapSliceOwner`). -/
+def lapTermSlices (f w : List K) (indices : List Nat) : Option (List (Nat × List K)) := do
+  let ss ← lapAtomSlices f w indices
+  let n := ss.length
+  (List.range n).mapM fun i => do
+    let s ← ss[lapSliceOwner i n]?
+    pure (lapGridOwner i n, s)
+
+/-- `sum_of_interpolation_funcs` at one point (`none`: no atoms, the code would raise). -/
+def lapSum : List K → Option K
+  | [] => none
+  | v :: vs => some (vs.foldl lapSumStep v)
 
 end GridVerif.Poisson
